@@ -162,6 +162,15 @@ def r203_duplicates(ctx):
         ok = ok and (it.args[1] is both or it.args[2] is both) and (it.args[1] is A.C.canon(sf) or it.args[2] is A.C.canon(sf))
         cond = it.args[0]
         ok = ok and contains(cond, lambda s: s is A.C.canon(cf))
+        ccf = A.C.canon(cf)
+        present = {ccf, A.C.canon(mk("cmp", "is not", cf, NONE))}
+        absent = {A.C._not(ccf), A.C.canon(mk("cmp", "is", cf, NONE)), A.C.canon(mk("not", cf))}
+        if cond in present:
+            ok = ok and it.args[1] is both      # control names present -> both lists are tested
+        elif cond in absent:
+            ok = ok and it.args[2] is both
+        else:
+            ok = False
     ctx.ob("R20.3", r.func, lev.node, ok, "the duplicate test iterates over sensitive + control names (control skipped "
            "only when absent)" if ok else f"duplicate test iterates over {A.show(lev.data['iter'], 160)}",
            construct="duplicate test range")
